@@ -570,9 +570,9 @@ func (x *gen) profile(depth int) *Node {
 	}
 }
 
-var ops2Lip = []string{"leaf", "leaf", "union2", "union2", "diff2", "isect2", "cut2", "xform2", "xform2", "scale2", "offset2", "elong2", "array2", "rotcopy2", "rotunion2"}
+var ops2Lip = []string{"leaf", "leaf", "union2", "union2", "diff2", "isect2", "cut2", "xform2", "xform2", "scale2", "offset2", "elong2", "array2", "rotcopy2", "rotunion2", "centerscale2", "center2", "cache2"}
 var ops2Solid = []string{"leaf", "leaf", "union2", "xform2", "xform2", "scale2", "offset2", "elong2", "array2", "rotcopy2", "rotunion2"}
-var ops2Full = append(append([]string{}, ops2Lip...), "nuscale2", "slice2", "cache2", "center2", "centerscale2", "multi2", "lineof2")
+var ops2Full = append(append([]string{}, ops2Lip...), "nuscale2", "slice2", "multi2", "lineof2")
 
 // union2Operand draws a program that ends up as an operand of a library 2D union (Union2D itself,
 // Multi2D, LineOf2D, the mirror-symmetrised operand of RotateCopy2D): no blends below it, and with
